@@ -206,8 +206,10 @@ TopDeg(L, l) == IF (L - l) % 2 = 0 THEN L ELSE L - 1
 \* is shipped as <<I, F, G>> : I = nearest integer of Re x, F = round((Re x - I) * 10^9), G = round(Im x * 10^9)
 \* (coefficients are stored as complex numbers).  It matches N iff I = N and |F|, |G| are within the
 \* floating-point accuracy of an evaluation whose terms sum to `abs` in magnitude: 1e-12 relative to that
-\* scale plus 2e-8 absolute (units of F, G: 1e-9).
-ObsTol(abs) == 20 + abs \div 1000
+\* scale plus 1e-7 absolute (units of F, G: 1e-9).  Measured on the unchanged tree: |F| <= 1 unit over the
+\* ~7500 histories of the quick object-machine runs, <= 72 units for rotated expansions (scale 1e5..1e8);
+\* the smallest effect of a wrong integer coefficient is 1 in I.
+ObsTol(abs) == 100 + abs \div 1000
 NumMatch(o, exact, abs) == o[1] = exact /\ PAbs(o[2]) <= ObsTol(abs) /\ PAbs(o[3]) <= ObsTol(abs)
 MatMatch(ob, exact, abs) ==
   /\ Len(ob) = Len(exact)
